@@ -53,6 +53,9 @@ THEOREMS = [
     "Optyx.Props.HookTie.hook_restored_of_source_shape",
     "Optyx.Props.HookTie.hook_installed_during_call",
     "Optyx.Props.HookTie.flow_of_source_shape",
+    "Optyx.Props.HookTie.limit_restored_of_source_shape",
+    "Optyx.Props.HookTie.limit_raised_inside_block",
+    "Optyx.Props.HookTie.globalStateSites_spec",
     "Optyx.Props.PinsC20.anchors",
 ]
 ASSUMPTIONS = [
